@@ -40,13 +40,13 @@ Definition hval_eqb (a b : hval) : bool :=
 Definition three_keys : list str := [k_xcto; k_xfo; k_xxp].
 
 (* each of the three headers has exactly one value: the configured override if there is one, else
-   the proxy's (a 401 may carry the proxy's X-Content-Type-Options even when overridden: Go's
+   the proxy's, which must be PROTECTIVE (a 401 may carry the proxy's X-Content-Type-Options even when overridden: Go's
    http.Error sets it) *)
 Definition one_protected (cfg : config) (status : N) (obs : hdr str) (k : str) : bool :=
   match hget k obs with
   | [x] =>
       match tbl_lookup k (c_overrides cfg) with
-      | None => option_eqb str_eqb (tbl_lookup k proxy_security_headers) (Some x)
+      | None => option_eqb str_eqb (tbl_lookup k proxy_security_headers) (Some x) && protective k x
       | Some ov => str_eqb x ov ||
                    (str_eqb k k_xcto && N.eqb status 401 &&
                     option_eqb str_eqb (tbl_lookup k proxy_security_headers) (Some x))
@@ -58,7 +58,11 @@ Definition three_ok (cfg : config) (status : N) (obs : hdr str) : bool :=
 
 (* with secure cookies: exactly the proxy's own HSTS value *)
 Definition hsts_ok (cfg : config) (obs : hdr str) : bool :=
-  negb (c_secure cfg) || list_eqb str_eqb (hget hsts_key obs) [snd proxy_hsts].
+  negb (c_secure cfg) ||
+  match hget hsts_key obs with
+  | [x] => str_eqb x (snd proxy_hsts) && protective hsts_key x      (* not weakened: max-age of at least six months *)
+  | _ => false
+  end.
 
 Fixpoint strip_prefix (p s : str) : option str :=
   match p, s with
@@ -177,7 +181,8 @@ Definition known_proxy (cfg : config) (q : request) (o : outcome) (status : N) (
         if c_replace cfg &&
            forallb (fun k => one_protected cfg status obs k || line_hits k (u_trailers u)) three_keys then 4 else 0
       else if negb (hsts_ok cfg obs) then
-        if line_hits hsts_key (u_lines u) || (c_replace cfg && line_hits hsts_key (u_trailers u))
+        if (line_hits hsts_key (u_lines u) || (c_replace cfg && line_hits hsts_key (u_trailers u))) &&
+           negb (list_eqb str_eqb (hget hsts_key obs) [snd proxy_hsts])   (* not: the proxy's own value is weak *)
         then (if c_replace cfg then 1 else 2) else 0
       else 0
   end.
@@ -187,7 +192,7 @@ Definition auth_names : list str :=
   [bs "Content-Security-Policy"; bs "Referrer-Policy"; k_hsts; k_xcto; k_xfo; k_xxp].
 Definition holds_auth (obs : hdr str) : bool :=
   forallb (fun kv => list_eqb str_eqb (hget (canon (fst kv)) obs) [snd kv]) auth_security_headers &&
-  forallb (fun k => match hget k obs with [_] => true | _ => false end) auth_names.
+  forallb (fun k => match hget k obs with [x] => protective k x | _ => false end) auth_names.
 Definition mismatch_auth (obs : hdr str) : bool :=
   negb (forallb (fun kv => list_eqb hval_eqb (hget (canon (fst kv)) (auth_handle auth_security_headers []))
                                              (map VStr (hget (canon (fst kv)) obs))) auth_security_headers).
